@@ -7,7 +7,7 @@
           ["wrap"] ["keymod",m] ["comp",f,g]
    pfun:  ["true"] ["false"] ["modeq",m,r] ["lt",c] ["not",p]
    gfun:  ["repeat",n] ["upto",m] ["elems"] ["none"]
-   bfun:  ["each",f] ["rev"] ["droplast"]
+   bfun:  ["each",f] ["rev"] ["droplast"] ["dup"] ["header"]
    cid:   ["sum"] ["count"] ["min"] ["max"] ["topk",k] ["distinct"] ["summod",m] ["gcd"]
    step:  ["map",f] ["filter",p] ["flat_map",g] ["key_by",f] ["unkey"] ["map_values",f]
           ["filter_values",p] ["map_values_w",f] ["filter_values_w",p] ["map_values_back",f]
@@ -111,6 +111,7 @@ Definition dec_bfun (j : J) : option bfun :=
   match j with
   | JL [JS t] =>
       if tag_is t "rev" then Some BRevChunk else if tag_is t "droplast" then Some BDropLast
+      else if tag_is t "dup" then Some BDup else if tag_is t "header" then Some BHeader
       else None
   | JL [JS t; f] => if tag_is t "each" then option_map BEach (dec_efun f) else None
   | _ => None
